@@ -60,6 +60,15 @@ def c11_oracle(h, i, line, impl, orc):
     return None
 
 
+def crash_oracle(h, i, line, impl, orc):
+    """C05: the crash-cut enumeration of the harness must end in `ok` for every mutating operation"""
+    if orc is None:
+        return None
+    if orc.endswith(" ok") or orc == "ok":
+        return None
+    return "crash cut: " + orc
+
+
 PROPS = {
     "C01": dict(kind="v1hist", quick_n=1500, thorough_n=4000,
                 profile=Profile(p_hash_read=0.0, check_all_versions=0.5, iters=0.3, big=0.05),
@@ -108,6 +117,13 @@ PROPS = {
                 title="storage = reachable set"),
     "C18": dict(kind="v1hist", quick_n=1500, thorough_n=10000, gen="kv", mode="kv", profile=None,
                 title="ordered-KV contract of the bundled backends"),
+    "C05": dict(kind="v1hist", quick_n=1200, thorough_n=8000, mode="crash", oracle=crash_oracle,
+                profile=Profile(versions=(2, 6), ops_per_version=(0, 5), p_prune=0.4, p_loadow=0.2, p_reopen=0.25,
+                                p_delfrom=0.05, check_all_versions=0.0, reads_per_version=(0, 1),
+                                imm_reads_per_version=(0, 0), meta_per_version=(0, 0), p_hash_read=0.0,
+                                thrs=[150, 200, 250, 300, 400, 600, 0], caches=[0, 0, 2, 100], dbs=["mem"],
+                                nkeys=6, p_load_old=0.0, ivs=[None, None, 1, 4]),
+                title="crash atomicity"),
     "C14": dict(kind="v1hist", quick_n=1500, thorough_n=4000,
                 profile=Profile(meta_per_version=(2, 5), p_load_old=0.25, p_prune=0.3, p_reopen=0.25,
                                 check_all_versions=0.2, p_noop_version=0.35),
@@ -118,6 +134,32 @@ PROPS = {
 # ---------------------------------------------------------------------------------------------
 # known findings: signatures are predicates over (history lines, index of first diverging line, divergence)
 
+def _small_thr(lines, idx):
+    """the flush threshold in force at line idx is a small explicit one (the operation's writes were
+    legitimately split over several physical batches)"""
+    thr = 0
+    for l in lines[:idx + 1]:
+        if l.startswith("cfg "):
+            for tok in l.split():
+                if tok.startswith("thr="):
+                    thr = int(tok[4:])
+    return 0 < thr <= 1000
+
+
+def sig_multibatch_commit_cut(lines, d):
+    # K7: a commit split over several physical writes (flush threshold of a few hundred bytes)
+    why = d.get("why") or ""
+    return (d["kind"] == "oracle" and d["line"].split()[0] in ("save", "savecs") and _small_thr(lines, d["idx"])
+            and ("load-failed" in why or "index:" in why or "get!=walk" in why))
+
+
+def sig_multibatch_delete_cut(lines, d):
+    # K7c: a deletion of old versions / a rollback split over several physical writes
+    why = d.get("why") or ""
+    return (d["kind"] == "oracle" and d["line"].split()[0] in ("prune", "loadow", "delfrom") and _small_thr(lines, d["idx"])
+            and ("mixture:" in why or "load-failed" in why or "retry-" in why or "index:" in why))
+
+
 def sig_empty_value_proof(lines, d):
     # K6: ics23 rejects an empty value: the proof (or a neighbour leaf of a non-membership proof) carries value `x`
     return d["kind"] == "oracle" and (" x " in (d["impl"] or "") and "proof" in d["line"])
@@ -125,6 +167,8 @@ def sig_empty_value_proof(lines, d):
 
 SIGNATURES = {
     "empty-value-proof": sig_empty_value_proof,
+    "multibatch-commit-cut": sig_multibatch_commit_cut,
+    "multibatch-delete-cut": sig_multibatch_delete_cut,
 }
 
 
